@@ -388,6 +388,11 @@ def life_oracle(run, s, obs, props):
         if len(ids) != 1:
             run.violation('lineage-run-id %s' % key, 'events carry %d run ids' % len(ids), case)
         if shape_ok:
+            # COMPLETE if and only if the run ended cleanly: a run() that raised - whatever sequence of exits and failures led there,
+            # e.g. a clean exit() followed by an exception in shutdown() - has not
+            if ev[-1] == 'COMPLETE' and obs['result'] != 0:
+                run.violation('lineage-terminal raised-run-ends-COMPLETE %s' % key,
+                              'run() raised (outcome %r) and the lineage history ends with COMPLETE' % (obs['result'],), case)
             only_clean = all(o in ('ok', 'exit') for _, o in faults) or not faults
             if only_clean and s['send_exit'] == 'ok' and ev[-1] != 'COMPLETE':
                 run.violation('lineage-terminal clean-run-ends-%s %s' % (ev[-1], key), 'clean run ended with %s' % ev[-1], case)
